@@ -334,7 +334,9 @@ func (ex *Exec) assertOblN(c *Term, id string, kfs []string, regions []*Term) {
 		}
 		// (2) outside the regions the property is asserted
 		c = ts.Or(regions[i], c)
-		ob.KF = kf
+		if !(regions[i].IsConst() && !regions[i].cBool()) {
+			ob.KF = kf // (the instance is, at least partly, inside the finding's region)
+		}
 	}
 	neg := ts.Not(c)
 	ob.Trivial = neg.IsConst()
